@@ -16,27 +16,15 @@ CLAIMED = {
  "C05": dict(technique="Coq proof: counter invariants by induction over calls into counts.rs; lock-step correspondence; wire/snapshot oracles",
    text="Machine-checked theorems about an executable Gallina model of counts.rs: for every sequence of calls (all limits incl. 0/1/unlimited and mid-connection SETTINGS changes, all stream-state histories as universally quantified inputs) a local stream is admitted only below the limit in force, the counted peer-initiated streams never exceed the advertised limit, transition_after gives a closed stream's slot back exactly once, counters equal the number of counted records, no assert of counts.rs fires. Tied to /repo by a lock-step on every counts.rs call (ten counters, is_counted flag, every can_inc_* result compared inside Coq) plus oracles on real traces: wire-level concurrency vs the peer's acknowledged limit, REFUSED_STREAM never accepted, no closed-and-flushed record still counted after any step.",
    note="Trusted as C02. The callers' query-then-increment discipline is a Stuck guard checked by the lock-step (it exposed the push-promise panic repaired in /repo). Not proved: that every closing path reaches transition_after, and progress of queued requests — explored by the oracles only.", design="5/C05"),
- "C11": dict(technique="Coq proof: Huffman table-walk decoder = RFC 7541 bit-level decoder on every input (induction + finite cell sweep); generated tables = RFC tables; differential run vs hpack::huffman",
-   text="Machine-checked: the regenerated ENCODE/DECODE tables of /repo equal the RFC 7541 Appendix B code; the model of h2's table-driven Huffman decoder agrees with the RFC bit-level reference on EVERY byte string (so EOS in the string, padding > 7 bits and non-EOS padding are rejected), decode(encode s) = s for all s. The models are tied to /repo by regenerating the tables on every run and by differential runs of hpack::huffman::{encode,decode} against the model evaluated inside Coq. The header-block decoder (integers, representations, dynamic table, chunk independence) is being added to this check; until then that part of C11 is covered only by the statement in DESIGN.md.",
-   note="Trusted: Coq kernel, the transcription of RFC 7541 Appendix B in Ref/Rfc7541HuffTable.v (taken from the RFC text embedded in /repo/util/genhuff), translator for the tables. http-crate validators are predicates.", design="5/C11"),
- "C03": dict(technique="Coq proof: receive-window conservation invariant by induction over recv.rs labels + ledger theorems; lock-step correspondence; wire/snapshot oracles",
-   text="Machine-checked theorems about an executable Gallina model of h2's receive-side flow control (recv.rs/flow_control.rs: recv_data exits, release_capacity, clear queue, release_closed, set_target_connection_window, SETTINGS_INITIAL_WINDOW_SIZE changes, WINDOW_UPDATE emission): for every label sequence the invariant 'advertised = window + in-flight (+ pending), connection level and per stream' is preserved, the advertised window never exceeds what the peer may legally assume, releasing everything restores the full window, and no flow-control assert/overflow fires. Tied to /repo by a lock-step over the hook events of recv.rs (pre-state and outputs compared inside Coq), a wire ledger on the bytes written, and snapshot oracles; the repaired window stall (fix 6962309) is replayed from the corpus on every run.",
-   note="Trusted as C02. Stream-level conservation is proved for records whose RecvStream handle is alive; after the handle is dropped the code stops maintaining the stream ledger (known finding KF-C03-1). Which exit a DATA frame takes where it depends on content-length/state is an observed input; teardown is outside the lock-step.", design="5/C03"),
- "C13": dict(technique="Coq proof: the message checks of h2 (model of frame/headers.rs load_hpack, recv_headers/recv_trailers/recv_data length accounting, server/client convert_poll_message, send check_headers) refine the RFC 9113 section 8 malformedness predicate; differential correspondence; reference oracle",
-   text="Machine-checked theorems: whatever field list the decoder yields, the model hands a request/response/interim response/pushed request/trailers to the application only if the RFC 9113 8.x reference predicate does not flag it (except three explicitly characterised known classes, each with a refutation lemma and a witness), the content-length ledger ends cleanly iff the DATA octets equal the declared length, and the send API model emits no block with connection-specific fields. Tied to /repo by running the real endpoint against a scripted raw peer on a corpus, structured mostly-valid messages with injected defects, and random field lists, comparing byte-exactly everything handed to the application and every RST_STREAM/GOAWAY with the model evaluated inside Coq, plus the reference predicate as oracle.",
-   note="Trusted as C02 plus Ref/Rfc9113Http.v as the reading of RFC 9113 8.x; http-crate validators are universally quantified booleans or modelled predicates (HttpTokens.v). Eight genuine defects found this way were repaired in /repo (fix: commits); KF-C13-1..3 remain as known findings.", design="5/C13"),
- "C04": dict(technique="Coq proof: state.rs transition function refines the RFC 9113 5.1 automaton (send side); differential correspondence with state.rs; wire-level sender oracle on real connection scripts",
-   text="Machine-checked theorems about an executable model of proto/streams/state.rs: every accepted send-side transition is one RFC 9113 figure 2 permits, nothing can be sent after END_STREAM or after a reset (closed is absorbing, the recorded cause never changes), only send_open leaves idle, a state that reports is_send_streaming is one in which the RFC lets DATA be sent. Tied to /repo by running every (state, method, argument) combination and random walks on the real State via a test facade and comparing with the model inside Coq. The connection-level part (frames actually written per stream, order, DATA after END_STREAM, frames on idle/closed streams) is judged by a hook-independent oracle over the bytes the real endpoint writes under thousands of generated scripts.",
-   note=LC, design="5/C04"),
- "C09": dict(technique="Coq proof: state.rs receive transitions vs RFC 9113 5.1 (accept what is required, refuse what is forbidden, with the required error class); differential correspondence; wire-level reaction/tolerance oracles",
-   text="Machine-checked theorems about the model of state.rs: recv_open/recv_close/recv_reset accept exactly the transitions RFC 9113 5.1 permits and refuse the forbidden ones with a connection error, a locally reset stream is flagged so that late frames are tolerated, is_local_error is true exactly for locally caused closure. Tied to /repo as C04. How the endpoint reacts on the wire to frames on idle/half-closed/closed/reset streams (STREAM_CLOSED vs PROTOCOL_ERROR, stream vs connection error, tolerance window after its own RST_STREAM) is judged by oracles on real connection scripts.",
-   note=LC, design="5/C09"),
- "C17": dict(technique="Coq proof: every error-recording transition of state.rs stores reason, initiator and debug data intact and the first cause wins; differential correspondence; API-surface oracle on real connection scripts",
-   text="Machine-checked theorems about the model of state.rs: recv_reset, handle_error, recv_go_away/recv_eof, set_reset and set_scheduled_reset record exactly the code/initiator/debug data they were given, ensure_recv_open/ensure_reason/poll_reset's view return that cause afterwards, the cause persists over every later transition and an earlier cause is never overwritten. Tied to /repo as C04. That the code reaching the application (poll_reset, body errors, send errors, connection error) is the one on the wire is judged by an oracle over real connection scripts.",
-   note=LC, design="5/C17"),
- "C07": dict(technique="Coq proof: connection end closes every stream state for good and a completely received message keeps its clean end; differential correspondence; ending oracle on real connection scripts",
-   text="Machine-checked theorems about the model of state.rs: handle_error/recv_eof/go_away close every state, closed is absorbing, no closed state reports a pending condition, a message whose END_STREAM was received keeps ending cleanly after the connection ends (repaired in /repo by fix 804dd22; C07_state_fix_needed shows the old behaviour violates it). Tied to /repo as C04. That every handle operation of every stream resolves (never stays Pending) once the connection has ended is judged by an oracle over real connection scripts which drops the connection and polls every handle; one known finding (KF-C07-1: poll_reset on a cleanly completed stream stays Pending).",
-   note=LC, design="5/C07"),
+ "C11": dict(technique="Coq proof: Huffman decoder = RFC 7541 bit-level decoder on every input; header-block decoder (prefix integers, all representations, dynamic table, size updates) sound and complete w.r.t. an RFC 7541 reference relation, independent of fragmentation; generated tables = RFC tables; differential runs vs hpack::huffman and hpack::Decoder",
+   text="Machine-checked: the regenerated Huffman ENCODE/DECODE tables and the static table of /repo equal RFC 7541 Appendices A/B; the model of h2's table-driven Huffman decoder agrees with the RFC bit-level reference on EVERY byte string; the model of hpack::Decoder::decode (integer decoding with h2's 4-continuation-octet limit, indexed/literal/size-update representations, eviction, size accounting) accepts a block only if the RFC reference relation derives the same field list and table (soundness), accepts every block the reference accepts whose fields pass the http validators (completeness), keeps the table within the largest advertised limit after every history, never runs out of fuel, and gives the same result for every fragmentation of a block, each except two exactly characterised known classes (KF-C11-1, KF-C11-3) that come with refutation lemmas and concrete witnesses. Tied to /repo by regenerating tables/constants on every run and by differential histories (valid, mutated, random, the hpack-test-case fixture stories, an integer sweep) run on the real decoder and on the model inside Coq, plus an RFC reference oracle.",
+   note="Trusted: Coq kernel, the transcriptions of RFC 7541 in Ref/Rfc7541*.v, translator for tables/constants. http-crate validators (HeaderName/HeaderValue/Method/StatusCode) are modelled predicates tied by correspondence only. Soundness/completeness assume octet inputs.", design="5/C11"),
+ "C14": dict(technique="Coq proof: invariants by induction over control-plane labels (settings.rs, ping_pong.rs, go_away.rs, Connection::poll2 order); lock-step correspondence; wire oracle",
+   text="Machine-checked theorems about an executable Gallina model of h2's control plane for every label sequence and every observed input: every SETTINGS frame taken is acknowledged exactly once and every PING is answered once with its payload, in order; the order goaway -> pong -> ping -> ack -> local settings inside one poll2 iteration is what makes the single-slot asserts unreachable (no SPanic for any sequence); remote settings take effect exactly at the moment the ACK is emitted, local settings exactly when the peer's ACK arrives, a stray ACK is a PROTOCOL_ERROR connection error and nothing else changes; the user-ping cell never loses a state under any interleaving of its atomic operations. Tied to /repo by a lock-step over hook events of settings.rs/ping_pong.rs/go_away.rs/connection.rs evaluated inside Coq (pre-state and outputs), and frame-by-frame comparison of emissions with the wire.",
+   note="Trusted as C02. What apply_remote_settings/apply_local_settings enforce in the stream layer is an output of this model (covered by C02/C03/C05); waker behaviour is outputs only; traces depend on timers (reset expiry) so replays are by op list.", design="5/C14"),
+ "C15": dict(technique="Coq proof: GOAWAY log monotone, graceful-shutdown state machine, idle close; lock-step correspondence; wire oracle; one known class with refutation lemma",
+   text="Machine-checked theorems about the same control-plane model: the last-stream ids of the GOAWAY frames an endpoint emits never increase and each covers every stream processed before it; HEADERS above the announced id are ignored; a peer GOAWAY with an increased id is refused; graceful shutdown sends GOAWAY(2^31-1)+PING, then on the PONG the final GOAWAY and lowers the accept bound in the same step, and closes once idle (except known class KF-C15-1: last id = 2^31-1, with refutation lemma); close_now closes; take_error reports the peer's reason. Tied to /repo as C14; corpus replays of the three repaired defects (push after GOAWAY, GOAWAY with queued PUSH_PROMISE, user reset resurfacing) and of KF-C15-1 run first on every check.",
+   note="Trusted as C02. 'Streams above the peer's last id fail with its reason / streams below run to completion' is an output (OStreamsGoAway) explored by the wire oracle, not proved.", design="5/C15"),
 }
 
 NA_REASON = "check not built yet (work in progress in this round; will be claimed once its theorem and correspondence run end to end)"
